@@ -22,3 +22,4 @@ def run(ctx):
     sig.s02_7_delegation(ctx, P)
     sig.s15_4_version_alignment_verify(ctx, P)
     sig.salt_fed_at_every_hasher(ctx, P)
+    sig.s02_8_every_binding_verified(ctx, P)
